@@ -31,6 +31,9 @@ ALL_CFGS = ['%s-%s-%s-%s' % (a, b, c, d) for a in ('avx2', 'sse41') for b in ('s
 CLANG = ['clang++-14', '-std=c++20', '-S', '-emit-llvm', '-O0', '-fno-discard-value-names', '-Xclang', '-disable-O0-optnone',
          '-Wno-everything', '-I' + REPO]
 
+CACHE_DIR = os.environ.get('VERIF_CACHE_DIR', '/var/tmp/verif_cache')
+try: CBMC_VERSION = subprocess.run(['cbmc', '--version'], capture_output=True, text=True).stdout.strip()
+except Exception: CBMC_VERSION = '?'
 class Undecided(Exception):
     """extraction break, tool failure, timeout: exit 2"""
 
@@ -225,7 +228,25 @@ def run_job(job, cfg, scratch, keep=False, variant=None):
         if job.solver != 'minisat': cb += ['--sat-solver', job.solver or 'cadical']
         cb += job.flags
         r.cmd = ' '.join(cb).replace(scratch, '$SCRATCH')
-        rc, so, se, dt = sh(cb, timeout=job.timeout, mem_gb=job.mem_gb)
+        # solver-result cache (optional, outside /verif and /repo): keyed by the complete preprocessed verification input (extracted code + harness +
+        # runtime headers + layout) and the exact back-end command; extraction, translation and goto-cc are redone on every run regardless.
+        ck = None; r.cached = False
+        if not os.environ.get('VERIF_NO_CACHE'):
+            rcp, pp, sep, _ = sh(['gcc', '-E', '-P', '-w'] + defs + inc + [os.path.join(VERIF, job.harness)], timeout=300)
+            if rcp == 0:
+                ck = hashlib.sha256(('\0'.join([pp, r.cmd, repr(job.dfcc), job.entry, CBMC_VERSION])).encode()).hexdigest()
+                cf = os.path.join(CACHE_DIR, ck + '.json')
+                if os.path.exists(cf):
+                    try:
+                        cd = json.load(open(cf)); rc, so, se, dt = cd['rc'], cd['so'], cd['se'], cd['dt']; r.cached = True
+                    except Exception: r.cached = False
+        if not r.cached:
+            rc, so, se, dt = sh(cb, timeout=job.timeout, mem_gb=job.mem_gb)
+            if ck and rc in (0, 10):
+                try:
+                    os.makedirs(CACHE_DIR, exist_ok=True); tmpf = os.path.join(CACHE_DIR, '%s.%d.tmp' % (ck, os.getpid()))
+                    json.dump({'rc': rc, 'so': so, 'se': se[-5000:], 'dt': dt, 'job': r.key}, open(tmpf, 'w')); os.replace(tmpf, os.path.join(CACHE_DIR, ck + '.json'))
+                except OSError: pass
         r.solver_s = dt; r.log = so[-200000:] + '\n' + se[-5000:]
         if keep: open(os.path.join(wd, 'cbmc.log'), 'w').write(so + '\n' + se)
         if rc == -9: raise Undecided(('cbmc timeout after %ds' % job.timeout) if dt >= job.timeout - 5 else 'cbmc killed by signal 9 after %ds (out of memory?)' % dt)
